@@ -1,5 +1,6 @@
 import Litestream.Lemmas.LtxChain
 import Litestream.Lemmas.CompactLevel
+import Litestream.Gen.CompactLoop
 /-!
 # C06 — Compaction never changes what is restored; levels stay contiguous
 
@@ -135,6 +136,25 @@ theorem level_wf_step {st st' : RState} {dst ts : Nat} {info : FileInfo} (h : RW
 /-- Concrete instance: L0 = 1..4, L1 = [1-2] (cached): `Compact(1)` writes 3-4. -/
 example : (compactLevel ⟨fun l => if l = 0 then [⟨0,1,1,1⟩, ⟨0,2,2,2⟩, ⟨0,3,3,3⟩, ⟨0,4,4,4⟩] else if l = 1 then [⟨1,1,2,2⟩] else [],
     fun l => if l = 1 then some ⟨1,1,2,2⟩ else none⟩ 1 4).toOption.map (·.2) = some ⟨1, 3, 4, 4⟩ := by decide
+
+/-- **The output range is exactly the range of the merged sources.**  The file
+    `Compactor.Compact(dst)` writes is named (and cached as the level's max) with
+    `[min, max]`; that range equals the header range `ltx.Compactor` computes from
+    the inputs it actually merged — all source-level files from the seek point on —
+    and a TXID lies in it iff one of the merged sources holds it.  (A cap on the
+    number of sources whose bookkeeping runs ahead of the merged set breaks this.) -/
+theorem output_range_is_source_range {st : RState} {dst : Nat} {pk : LevelPick} (h : RWF st)
+    (hp : compactPick st dst = .ok pk) :
+    pk.srcs = sources st dst ∧ pk.srcs ≠ [] ∧ LevelWF pk.srcs ∧ (pk.min, pk.max) = srcHeader pk.srcs ∧
+    ∀ t, (pk.min ≤ t ∧ t ≤ pk.max) ↔ ∃ g ∈ pk.srcs, g.min ≤ t ∧ t ≤ g.max := pick_range_exact h hp
+
+/-- (T) The source loop of `Compactor.Compact` in /repo/compactor.go leaves no listed
+    source file out: it has no `break`, and its only `continue` follows the append of
+    the file's reader — the model's `sources` (all files from the seek point) is what
+    the loop merges, and the range bookkeeping precedes every exit from the body. -/
+theorem gen_compact_loop :
+    Gen.CompactLoop.breaks = 0 ∧ Gen.CompactLoop.exitsBeforeAppend = 0 ∧ Gen.CompactLoop.rangeUpdates = 2 := by
+  decide
 
 end C06
 end Litestream
